@@ -77,6 +77,7 @@ func runC17(cfg config) {
 		mkVar("b={go-string,1} (unsupported first)", "b", system.Collection{"x", system.Integer(1)}),
 		mkVar("c={{go-struct},1,s} (nested unsupported, not last)", "c", system.Collection{system.Collection{struct{}{}}, system.Integer(1), system.String("s")}),
 		mkVar("d={{},{{}}} (empty once spliced)", "d", system.Collection{system.Collection{}, system.Collection{system.Collection{}}}),
+		mkVar("b={{{2}},{{{3}}}} (three and four levels)", "b", system.Collection{system.Collection{system.Collection{system.Integer(2)}}, system.Collection{system.Collection{system.Collection{system.Integer(3)}}}}),
 		mkVar("%a=3 (the percent sign is part of this name: another variable)", "%a", system.Integer(3)),
 		mkVar("%context=2 (another variable, not the predefined one)", "%context", system.Integer(2)),
 		{"OverrideTime", "EOverrideTime", func() fhirpath.EvaluateOption { return evalopts.OverrideTime(time.Unix(0, 0)) }},
